@@ -244,6 +244,15 @@ func (w *world) checkOrder(lr []*rm.Entry, st map[string]*hostState, timingOff b
 		return !s.hard && !timingOff && decided > 0 && decided >= s.expiry
 	}
 	aFirst := lr[0].Arrive
+	// the client sorts its hosts again before every attempt of a logical read: what counts for the back-off clause is
+	// when a host was actually contacted in this read, not when the read began (a host whose window ran out while
+	// another host was being retried may legitimately come next)
+	arrOf := map[string]time.Duration{}
+	for _, e := range lr {
+		if _, ok := arrOf[e.Host]; !ok {
+			arrOf[e.Host] = e.Arrive
+		}
+	}
 	desc := func() string {
 		p := []string{}
 		for _, h := range firsts {
@@ -304,7 +313,7 @@ func (w *world) checkOrder(lr []*rm.Entry, st map[string]*hostState, timingOff b
 					// order is already explained by that defect; equal / higher priority pairs isolate (5b)
 					sig = "mirror-order-not-descending-priority"
 				}
-				if aFirst < sa.lastFail.Done+win {
+				if aFirst < sa.lastFail.Done+win && arrOf[a] < sa.lastFail.Done+win {
 					out = append(out, evid.V(sig, "read %s %s: first contacts %s; %s failed request #%d (%s) at %v and has to be backed off from for at least %v, the order of this request was decided before %v (arrival of its first attempt), "+
 						"yet %s was tried before %s, which never failed",
 						lr[0].Method, w.normPath(lr[0]), desc(), short(a), sa.lastFail.Seq, sa.lastFail.Fault, sa.lastFail.Done, win, aFirst, short(a), short(b)))
